@@ -13,6 +13,7 @@ import PyramidModel.Gen.C19ProbesB
 import PyramidModel.Gen.C19ProbesC
 import PyramidModel.Gen.C19ProbesD
 import PyramidModel.Gen.C19ProbesE
+import PyramidModel.Gen.C19ProbesF
 import PyramidModel.Lemmas.HttpExcSpec
 import PyramidModel.Lemmas.HttpExc
 import PyramidModel.Lemmas.HttpExcTemplate
@@ -148,11 +149,18 @@ theorem rendered_has_pieces {off : List Text} {e : Exc} {environ : List (Text ×
 /-- HTML: the body is a concatenation of pieces; every piece that renders a supplied text (explanation, detail,
 comment, environ value, header value — ANY text) is exactly `htmlEscape` of it, hence contains no markup
 character; so every `<`, `>`, `"`, `'` of the body lies in a piece that is a template literal, the status, the
-`<br/>` or the comment delimiters — for every body template (default or custom) and page template. -/
+`<br/>` or the comment delimiters — for every body template (default or custom) and page template.
+
+Hypothesis `hplain`: none of detail / comment / explanation is a MARKUP OBJECT (a value with `__html__`).  WebOb's
+`html_escape` returns `value.__html__()` verbatim by design, so for such a value nothing can be promised (see
+`markup_object_is_inserted_verbatim`); that pyramid itself never puts one into the exceptions it raises on the router's
+paths is the probed obligation `router_values_are_plain_str`. -/
 theorem html_markup_is_template_only {off : List Text} {e : Exc} {environ : List (Text × Text)} {q : Text → Nat}
-    {r : Resp} (h : prepare off e environ q = .ok (some r)) (hf : r.form = .html) :
+    {r : Resp} (h : prepare off e environ q = .ok (some r)) (hf : r.form = .html)
+    (hplain : e.detailHtml = none ∧ e.commentHtml = none ∧ e.explanationHtml = none) :
     ∃ ps, r.body = flattenPieces ps ∧
       (∀ p ∈ ps, PieceOk .html e p) ∧
+      (∀ p ∈ ps, ∀ raw, p.origin ≠ .markup raw) ∧
       (∀ p ∈ ps, ∀ raw, p.origin = .user raw →
           p.text = htmlEscape raw ∧ (∀ c ∈ p.text, isMeta c = false ∧ c.toNat < 128) ∧ entitiesOk p.text = true) ∧
       (∀ p ∈ ps, ∀ c ∈ p.text, isMeta c = true → ∀ raw, p.origin ≠ .user raw) := by
@@ -164,7 +172,25 @@ theorem html_markup_is_template_only {off : List Text} {e : Exc} {environ : List
     have := hok p hp
     simp only [PieceOk, ho] at this
     exact this
-  refine ⟨ps, by simpa [bodyOfPieces] using hb, hok, ?_, ?_⟩
+  have hnomark : ∀ p ∈ ps, ∀ raw, p.origin ≠ .markup raw := by
+    obtain ⟨h1, h2, h3⟩ := hplain
+    refine specRender_all (fun p => ∀ raw, p.origin ≠ .markup raw) hs ?_ ?_ ?_ ?_
+    · intro o ho c raw; rcases ho with rfl | rfl <;> simp
+    · intro raw; simp
+    · intro kv hkv p hp raw
+      simp only [specBase, Exc.withContentType, h1, h2, h3, orHtml, ite_self, valPiece, htmlCommentP, List.mem_cons,
+        List.mem_nil_iff, or_false] at hkv
+      rcases hkv with rfl | rfl | rfl | rfl | rfl
+      · simp only [List.mem_singleton] at hp; subst hp; simp
+      · simp only [List.mem_singleton] at hp; subst hp; simp [userPiece]
+      · simp only [List.mem_singleton] at hp; subst hp; simp [userPiece]
+      · simp only [List.mem_singleton] at hp; subst hp; simp [userPiece]
+      · split at hp
+        · simp at hp
+        · simp only [List.mem_cons, List.mem_nil_iff, or_false] at hp
+          rcases hp with rfl | rfl | rfl <;> simp [userPiece]
+    · intro raw raw'; simp [userPiece]
+  refine ⟨ps, by simpa [bodyOfPieces] using hb, hok, hnomark, ?_, ?_⟩
   · intro p hp raw ho
     have e1 := huser p hp raw ho
     refine ⟨e1, ?_, ?_⟩
@@ -179,6 +205,17 @@ theorem html_markup_is_template_only {off : List Text} {e : Exc} {environ : List
     have := ((escape_no_meta raw).1 c hc).2
     rw [this] at hm
     cases hm
+
+/-- why `hplain` is needed: a detail that is a markup object (text `x`, `__html__()` = `<b>`) puts `<b>` into the HTML
+body unescaped — WebOb's `html_escape` honours `__html__` by design; JSON and plain text show `str(value)` -/
+theorem markup_object_is_inserted_verbatim :
+    let e : Exc := { status := ['4', '0', '4'], title := ['N'], explanation := [], detail := some ['x'], comment := none,
+                     bodyTmpl := ['$', '{', 'd', 'e', 't', 'a', 'i', 'l', '}'], custom := true,
+                     htmlTmpl := ['$', '{', 'b', 'o', 'd', 'y', '}'], plainTmpl := ['$', '{', 'b', 'o', 'd', 'y', '}'],
+                     emptyBody := false, hasBody := false, headers := [], detailHtml := some ['<', 'b', '>'] }
+    (prepare offeredForms e [] (fun m => if m = mimeHtml then 1000 else 0)).toOption.join.map (·.body) = some ['<', 'b', '>'] ∧
+    (prepare offeredForms e [] (fun m => if m = mimePlain then 1000 else 0)).toOption.join.map (·.body) = some ['x'] := by
+  decide +kernel
 
 /-- JSON: the body is read by the JSON reader as an object with exactly the members message, code, title; the
 message is the body template with every supplied text inserted VERBATIM (no escaping, no expansion). -/
@@ -215,57 +252,20 @@ theorem plain_verbatim {off : List Text} {e : Exc} {environ : List (Text × Text
     simp only [PieceOk, ho] at this
     exact this
   · -- comment delimiters only exist in the HTML form
-    generalize e.withContentType Form.plain = e' at hs
-    have hargs : ∀ kv ∈ specArgs .plain e' environ, ∀ p ∈ kv.2, p.origin ≠ .commentOpen ∧ p.origin ≠ .commentClose := by
-      intro kv hkv p hp
-      unfold specArgs at hkv
-      simp only [] at hkv
-      have base : ∀ kv ∈ ([(['b', 'r'], [⟨.br, brOf .plain⟩]),
-          (['e', 'x', 'p', 'l', 'a', 'n', 'a', 't', 'i', 'o', 'n'], [userPiece .plain e'.explanation]),
-          (['d', 'e', 't', 'a', 'i', 'l'], [userPiece .plain (orEmpty e'.detail)]),
-          (['c', 'o', 'm', 'm', 'e', 'n', 't'], [userPiece .plain (orEmpty e'.comment)]),
-          (['h', 't', 'm', 'l', '_', 'c', 'o', 'm', 'm', 'e', 'n', 't'], htmlCommentP .plain (orEmpty e'.comment))] :
-            List (Text × List Piece)), ∀ p ∈ kv.2, p.origin ≠ .commentOpen ∧ p.origin ≠ .commentClose := by
-        intro kv hkv p hp
-        simp only [List.mem_cons, List.mem_nil_iff, or_false] at hkv
-        rcases hkv with rfl | rfl | rfl | rfl | rfl
-        · simp only [List.mem_singleton] at hp; subst hp; simp
+    refine specRender_all (fun p => p.origin ≠ .commentOpen ∧ p.origin ≠ .commentClose) hs ?_ ?_ ?_ ?_
+    · intro o ho c; rcases ho with rfl | rfl <;> simp
+    · simp
+    · intro kv hkv p hp
+      simp only [specBase, valPiece, htmlCommentP, List.mem_cons, List.mem_nil_iff, or_false] at hkv
+      rcases hkv with rfl | rfl | rfl | rfl | rfl
+      · simp only [List.mem_singleton] at hp; subst hp; simp
+      · simp only [List.mem_singleton] at hp; subst hp; simp [userPiece]
+      · simp only [List.mem_singleton] at hp; subst hp; simp [userPiece]
+      · simp only [List.mem_singleton] at hp; subst hp; simp [userPiece]
+      · split at hp
+        · simp at hp
         · simp only [List.mem_singleton] at hp; subst hp; simp [userPiece]
-        · simp only [List.mem_singleton] at hp; subst hp; simp [userPiece]
-        · simp only [List.mem_singleton] at hp; subst hp; simp [userPiece]
-        · simp only [htmlCommentP] at hp
-          split at hp
-          · simp at hp
-          · simp only [List.mem_singleton] at hp; subst hp; simp [userPiece]
-      split at hkv
-      · simp only [List.mem_append, List.mem_map] at hkv
-        rcases hkv with (hkv | ⟨x, _, rfl⟩) | ⟨x, _, rfl⟩
-        · exact base kv hkv p hp
-        · simp only [List.mem_singleton] at hp; subst hp; simp [userPiece]
-        · simp only [List.mem_singleton] at hp; subst hp; simp [userPiece]
-      · exact base kv hkv p hp
-    unfold specRender at hs
-    cases hbd : specBody .plain e' environ with
-    | error err => rw [hbd] at hs; simp at hs
-    | ok body =>
-      rw [hbd] at hs
-      simp only [] at hs
-      have hbody : ∀ p ∈ body, p.origin ≠ .commentOpen ∧ p.origin ≠ .commentClose := by
-        refine fillP_pieces .bodyLit _ (fun p => p.origin ≠ .commentOpen ∧ p.origin ≠ .commentClose) ?_ ?_ _ body hbd
-        · intro c; simp
-        · intro k v hv p hp
-          obtain ⟨kv, hm, rfl⟩ := lookupLastP_mem hv
-          exact hargs kv hm p hp
-      refine fillP_pieces .pageLit _ (fun p => p.origin ≠ .commentOpen ∧ p.origin ≠ .commentClose) ?_ ?_ _ ps hs
-      · intro c; simp
-      · intro k v hv p hp
-        unfold pageEnvP at hv
-        split at hv
-        · simp only [Option.some.injEq] at hv; subst hv
-          simp only [List.mem_singleton] at hp; subst hp; simp
-        · split at hv
-          · simp only [Option.some.injEq] at hv; subst hv; exact hbody p hp
-          · cases hv
+    · intro raw; simp [userPiece]
 
 /-- The content type names the form the body has, and the form is the one negotiated — WHATEVER Content-Type the
 caller had put on the exception before (`e.headers` is arbitrary: `content_type=` / `charset=` keyword, a Content-Type
@@ -347,7 +347,8 @@ theorem prepare_is_shared : Pyr.Gen.C19.prepareShared = true := by decide
 /-- the model run on the input of a probe, in the vocabulary of the observations -/
 def runProbe (p : Pyr.Gen.C19.RenderProbe) : Pyr.Gen.C19.Observed :=
   let e0 := p.cls.toExc p.detail p.comment p.headers
-  let e1 : Exc := { e0 with hasBody := p.hasBody, explanation := p.explanation.getD e0.explanation }
+  let e1 : Exc := { e0 with hasBody := p.hasBody, explanation := p.explanation.getD e0.explanation,
+                            detailHtml := p.detailHtml, commentHtml := p.commentHtml, explanationHtml := p.explanationHtml }
   let e : Exc := match p.bodyTemplate with
     | some t => { e1 with bodyTmpl := t, custom := true }
     | none => e1
@@ -388,11 +389,33 @@ comment assigned after construction; × Accept html / json / plain / `*/*`; HTTP
 content type, the whole Content-Type header and the body are the model's -/
 theorem probes_match_model_E : Pyr.Gen.C19.probesE.all (·.all probeAgrees) = true := by decide +kernel
 
+/-- the router's own paths (not found, forbidden through a refusing policy, predicate mismatch of a view and of a
+multiview, a matched route without view, CSRF origin failure, append-slash redirect) with all debug settings off and all
+on, benign and hostile requests (markup, `&`, quotes, non-ASCII, `$`-syntax in path, query string, Host, Origin; a context
+whose `repr` shows the path segment), in all three forms: the page is what the model renders from the exception pyramid
+built (its detail / comment / headers as found on the response object before it was called) -/
+theorem probes_match_model_F : Pyr.Gen.C19.probesF.all (·.all probeAgrees) = true := by decide +kernel
+
+/-- THE VALUES PYRAMID ITSELF PUTS INTO EXCEPTIONS ARE PLAIN `str`: on every router path above, for every combination of
+`debug_notfound`, `debug_authorization`, `debug_routematch` and the append-slash not-found view, for benign and hostile
+requests, `detail`, `comment`, `message`, `explanation` and every header value of the exception are `None` or exactly
+`str` and have no `__html__` — so `hplain` of `html_markup_is_template_only` holds for them; and the table covers the
+whole cube. -/
+theorem router_values_are_plain_str :
+    (Pyr.Gen.C19.routerValues.all fun v => v.plainStr && !v.hasHtml) = true ∧
+    ([false, true].all fun dn => [false, true].all fun da => [false, true].all fun dr => [false, true].all fun sl =>
+      (List.range Pyr.Gen.C19.routerKinds.length).all fun k => [0, 1].all fun var => [0, 1, 2, 3].all fun a =>
+        (k == 6 && !sl) ||
+        Pyr.Gen.C19.routerValues.any fun v => v.debugNotfound == dn && v.debugAuthorization == da && v.debugRoutematch == dr &&
+          v.appendSlash == sl && v.kind == k && v.variant == var && v.attr == a) = true ∧
+    Pyr.Gen.C19.routerKinds.length = 7 := by decide +kernel
+
 /-- the probe domain is the intended one: nothing was dropped, every class is probed in every form, every variable
 in every form over the whole of ASCII -/
 theorem probe_domain_covered :
     Pyr.Gen.C19.probesACount + Pyr.Gen.C19.probesBCount + Pyr.Gen.C19.probesCCount + Pyr.Gen.C19.probesDCount
-      + Pyr.Gen.C19.probesECount = Pyr.Gen.C19.probeCount ∧
+      + Pyr.Gen.C19.probesECount + Pyr.Gen.C19.probesFCount = Pyr.Gen.C19.probeCount ∧
+    (Pyr.Gen.C19.probesF.map List.length).sum = Pyr.Gen.C19.probesFCount ∧ Pyr.Gen.C19.probesFCount ≥ 100 ∧
     (Pyr.Gen.C19.probesE.map List.length).sum = Pyr.Gen.C19.probesECount ∧ Pyr.Gen.C19.probesECount ≥ 100 ∧
     (Pyr.Gen.C19.probesE.any (·.any fun p => p.hasBody)) = true ∧
     (Pyr.Gen.C19.probesA.map List.length).sum = Pyr.Gen.C19.probesACount ∧
@@ -408,7 +431,7 @@ theorem probe_domain_covered :
       (Pyr.Gen.C19.probesC.any (·.any fun p => p.kind == k && p.qj != 0)) &&
       (Pyr.Gen.C19.probesC.any (·.any fun p => p.kind == k && p.qp != 0))) = true) ∧
     (Pyr.Gen.C19.probesD.any (·.any fun p => p.kind == "neg")) = true ∧
-    (Pyr.Gen.C19.probesD.any (·.any fun p => p.kind == "router404")) = true ∧
+    (Pyr.Gen.C19.probesE.any (·.any fun p => p.detailHtml.isSome)) = true ∧
     (Pyr.Gen.C19.probesD.any (·.any fun p => p.kind == "wsgi")) = true := by decide +kernel
 
 /-- which environ values the real code stringifies while it builds the args of a custom template is the model's
@@ -457,7 +480,7 @@ theorem default_classes_always_render :
         have hmem := hb2 n hn'
         have hcu : e.custom = false := by simp [he, ClassInfo.toExc, Exc.withContentType, hcust]
         simp only [List.contains_eq_mem, List.mem_cons, List.mem_nil_iff, or_false, decide_eq_true_eq] at hmem
-        rcases hmem with rfl | rfl | rfl | rfl | rfl <;> simp [specArgs, hcu, lookupLastP]
+        rcases hmem with rfl | rfl | rfl | rfl | rfl <;> simp [specArgs, specBase, hcu, lookupLastP]
     obtain ⟨body, hbd⟩ := hbody
     have hpage : ∀ tmpl, tokValid (tokenize tmpl) = true →
         (∀ x ∈ tokVars (tokenize tmpl), ([['s', 't', 'a', 't', 'u', 's'], ['b', 'o', 'd', 'y']] : List Text).contains x = true) →
@@ -507,7 +530,7 @@ theorem notfound_echo_escaped :
   | none => exact absurd rfl hnone
   | some r =>
     refine ⟨r, hr0, fun hf => ?_⟩
-    obtain ⟨ps, hb, _, _, hmeta⟩ := html_markup_is_template_only hr0 hf
+    obtain ⟨ps, hb, _, _, _, hmeta⟩ := html_markup_is_template_only hr0 hf ⟨rfl, rfl, rfl⟩
     obtain ⟨_, _, _, ps', hs, hb'⟩ := rendered_has_pieces hr0
     rw [hf] at hs hb'
     refine ⟨ps', by simpa [bodyOfPieces] using hb', ?_, ?_⟩
@@ -522,11 +545,10 @@ theorem notfound_echo_escaped :
         have h1 : (⟨.user path, htmlEscape path⟩ : Piece) ∈ body := by
           refine fillP_contains .bodyLit _ _ body hbd ['d', 'e', 't', 'a', 'i', 'l'] (by simpa [ClassInfo.toExc, Exc.withContentType] using hdet)
             [userPiece .html path] ?_ _ (by simp [userPiece, escapeOf])
-          simp [specArgs, hcust, lookupLastP, ClassInfo.toExc, Exc.withContentType, orEmpty]
+          simp [specArgs, specBase, valPiece, orHtml, hcust, lookupLastP, ClassInfo.toExc, Exc.withContentType, orEmpty]
         exact fillP_contains .pageLit _ _ ps' hs ['b', 'o', 'd', 'y'] (by simpa [ClassInfo.toExc, Exc.withContentType] using hbody) body
           (by simp [pageEnvP]) _ h1
-    · obtain ⟨_, _, _, hm⟩ := html_markup_is_template_only hr0 hf
-      -- the pieces are determined by the rendering
+    · -- the pieces are determined by the rendering
       intro p hp ch hch hme raw ho
       have hok := specRender_ok hs p hp
       simp only [PieceOk, ho] at hok
